@@ -304,3 +304,63 @@ def instant(ctx):
     if nsinks < 3:
         raise AnalysisError('anchor-vanished: GMT offset sinks (%d)' % nsinks)
     return obs
+
+
+@rule('SA-DATE.signext')
+@props('C19')
+def signext(ctx):
+    """Sign extension of a two's complement field (the 12-bit UDF time zone): where a value is tested against a single
+    bit M and, when the bit is set, reduced by K, K is twice M (`if v & (1 << (bits - 1)): v -= 1 << bits`, or the same
+    with literals: 0x800 and 0x1000).  Any other K shifts every negative value - with 0xfff a zone of -300 minutes is
+    parsed as -299, so every timestamp read from an image made west of Greenwich denotes an instant one minute off and
+    moves by another minute with each open-and-write generation."""
+    from ..model import fold, NotConst
+    obs = []
+    n = 0
+    for fi in ctx.m.pkg_functions():
+        if fi.module not in ('udf', 'dates', 'utils', 'rockridge'):
+            continue
+        mi = ctx.m.modules[fi.module]
+        for node in ctx.own_nodes(fi):
+            if not isinstance(node, ast.If):
+                continue
+            t = node.test
+            if isinstance(t, ast.Compare) and len(t.ops) == 1 and isinstance(t.ops[0], ast.NotEq) and isinstance(t.comparators[0], ast.Constant) and t.comparators[0].value == 0:
+                t = t.left
+            if not (isinstance(t, ast.BinOp) and isinstance(t.op, ast.BitAnd)):
+                continue
+            for var, mask in ((t.left, t.right), (t.right, t.left)):
+                subs = []
+                for st in node.body:
+                    if isinstance(st, ast.AugAssign) and isinstance(st.op, ast.Sub) and norm(st.target) == norm(var):
+                        subs.append(st.value)
+                    elif isinstance(st, ast.Assign) and len(st.targets) == 1 and norm(st.targets[0]) == norm(var) and isinstance(st.value, ast.BinOp) and \
+                            isinstance(st.value.op, ast.Sub) and norm(st.value.left) == norm(var):
+                        subs.append(st.value.right)
+                if len(subs) != 1:
+                    continue
+                k = subs[0]
+                ok = None
+                try:
+                    m_c, k_c = fold(mask, ctx.m, mi), fold(k, ctx.m, mi)
+                    if isinstance(m_c, int) and isinstance(k_c, int) and m_c > 0 and m_c & (m_c - 1) == 0:
+                        ok = (k_c == 2 * m_c)
+                        shown = '%#x and %#x' % (m_c, k_c)
+                except NotConst:
+                    pass
+                if ok is None:
+                    # symbolic: 1 << (b - 1)  and  1 << b
+                    if isinstance(mask, ast.BinOp) and isinstance(mask.op, ast.LShift) and norm(mask.left) == '1' and isinstance(k, ast.BinOp) and \
+                            isinstance(k.op, ast.LShift) and norm(k.left) == '1' and isinstance(mask.right, ast.BinOp) and isinstance(mask.right.op, ast.Sub) and \
+                            norm(mask.right.right) == '1':
+                        ok = norm(mask.right.left) == norm(k.right)
+                        shown = '%s and %s' % (norm(mask), norm(k))
+                if ok is None:
+                    continue
+                n += 1
+                obs.append(Ob('SA-DATE.signext', '%s|sign extension of %s' % (fi.qual, norm(var)), ok, ctx.loc(fi, node),
+                              '' if ok else 'the value is tested against the sign bit and then reduced (%s): the amount taken off a two\'s complement value whose sign bit is M '
+                              'is 2*M; with anything else every negative value is off by the difference (a parsed time zone of -300 minutes becomes -299)' % shown))
+    # the idiom may be replaced by another way of decoding (struct, int.from_bytes(signed=True)): no floor
+    obs.append(Ob('SA-DATE.signext', 'sign extensions by test-and-subtract examined', True, '', '%d' % n))
+    return obs
